@@ -95,7 +95,7 @@ def _case(draw, ctx):
     esc = draw(st.integers(0, 2)) == 0
     pools = (VNAMES, ESC) if esc else (VNAMES,)
     if draw(st.integers(0, 5)) == 0:
-        pools = (VNAMES[:12], LONG)
+        pools = (VNAMES[:20], LONG)
     dense = False
     if draw(st.integers(0, 3)) == 0:
         # nets named like the gates the reader synthesises for assign expressions
